@@ -77,27 +77,88 @@ func pushFunc(c *chk.Ctx) *ssa.Function {
 	return nil
 }
 
-// rulePushGate: C09-D1/D2.
+// rulePushGate: C09-D1/D2. The push entry points are the exported Server
+// methods in whose extended body a request message is built (a store into the
+// method member of a message): each must test allowPush before building or
+// sending anything, return a package-level error on the other edge, and have
+// a not-running edge (channel == nil) that returns a package-level error.
 func rulePushGate(c *chk.Ctx) {
-	pf := pushFunc(c)
-	if pf == nil {
-		c.Undecided("WHO.push", nil, "push function", 0, "push function not resolved")
-		return
-	}
 	loadsAllow := func(v ssa.Value) bool { return chk.LoadsField(v, c.M.SAllowP) }
-	n := 0
-	for _, s := range c.P.Callers(pf) {
-		n++
-		gated := false
-		for _, cd := range ir.CondsAt(s.Instr.Block()) {
-			if is, truth := condOnBoolField(cd, c.M.SAllowP, loadsAllow); is && truth {
-				gated = true
+	type entry struct {
+		f      *ssa.Function
+		builds []ssa.Instruction
+	}
+	var entries []entry
+	for _, f := range pkgFuncs(c, c.M.Pkg) {
+		if f.Parent() != nil || !ir.Exported(f) || ir.RecvNamed(f) != c.M.Server {
+			continue
+		}
+		var builds []ssa.Instruction
+		c.P.ExtInstrs(f, func(ins ssa.Instruction) {
+			if st, ok := ins.(*ssa.Store); ok && chk.IsField(st.Addr, c.M.JM) {
+				builds = append(builds, st)
+			}
+		})
+		if len(builds) > 0 {
+			entries = append(entries, entry{f, builds})
+		}
+	}
+	// a message-building helper shared by several entry points belongs to none of their extended
+	// bodies: find it through the callers of the function that stores the method member
+	if len(entries) < 2 {
+		seen := map[*ssa.Function]bool{}
+		for _, e := range entries {
+			seen[e.f] = true
+		}
+		for _, f := range pkgFuncs(c, c.M.Pkg) {
+			if ir.RecvNamed(ir.Root(f)) != c.M.Server {
+				continue
+			}
+			ir.Instrs(f, func(ins ssa.Instruction) {
+				st, ok := ins.(*ssa.Store)
+				if !ok || !chk.IsField(st.Addr, c.M.JM) {
+					return
+				}
+				for _, ent := range entriesAvoiding(c, f, nil) {
+					for _, g := range pkgFuncs(c, c.M.Pkg) {
+						if ir.Name(g) == ent && g.Parent() == nil && ir.Exported(g) && ir.RecvNamed(g) == c.M.Server && !seen[g] {
+							seen[g] = true
+							entries = append(entries, entry{g, []ssa.Instruction{st}})
+						}
+					}
+				}
+			})
+		}
+	}
+	if len(entries) < 2 {
+		c.Undecided("WHO.push", nil, "push callers", 0, "found %d push entry points (want 2: Notify, Callback)", len(entries))
+	}
+	for _, e := range entries {
+		f := e.f
+		// gate: everything that builds or transmits a request is reached only on the allowPush edge
+		gated := true
+		var at ssa.Instruction
+		for _, b := range e.builds {
+			ok := c.P.AllContexts(b, func(g *ssa.Function) bool { return g == f }, func(cs []ir.Cond) bool {
+				for _, cd := range cs {
+					if is, truth := condOnBoolField(cd, c.M.SAllowP, loadsAllow); is && truth {
+						return true
+					}
+				}
+				return false
+			})
+			if !ok {
+				gated, at = false, b
 			}
 		}
-		c.Check(gated, "WHO.push", s.Caller, "push gated by AllowPush", s.Instr.Pos(), "the push function is called only on the allowPush edge", "the push function can be called although push is not enabled")
+		pos := f.Pos()
+		if at != nil {
+			pos = at.Pos()
+		}
+		c.Check(gated, "WHO.push", f, "push gated by AllowPush", pos, "a request is built and sent only on the allowPush edge", "a request can be pushed although push is not enabled")
 		// the other edge returns a non-nil package-level error without transmitting
 		okRet := false
-		for _, r := range ir.Returns(s.Caller) {
+		for _, r := range ir.Returns(f) {
 			for _, cd := range ir.CondsAt(r.Block()) {
 				if is, truth := condOnBoolField(cd, c.M.SAllowP, loadsAllow); is && !truth {
 					if g := globalLoad(ir.ReturnResult(r, len(r.Results)-1)); g != nil {
@@ -106,25 +167,62 @@ func rulePushGate(c *chk.Ctx) {
 				}
 			}
 		}
-		c.Check(okRet, "WHO.push", s.Caller, "ErrPushUnsupported on the other edge", s.Instr.Pos(), "the not-enabled edge returns a package-level error", "the not-enabled edge does not return a package-level error")
-	}
-	if n < 2 {
-		c.Undecided("WHO.push", pf, "push callers", pf.Pos(), "found %d callers of the push function (want 2: Notify, Callback)", n)
-	}
-	// D2: the not-running edge returns a package-level error before anything is sent
-	okClosed := false
-	for _, r := range ir.Returns(pf) {
-		st := c.F.At(r)
-		_ = st
-		for _, cd := range ir.CondsAt(r.Block()) {
-			if x, eq, ok := ir.NilCompare(cd.V); ok && chk.LoadsField(x, c.M.SCh) && eq == cd.Truth {
-				if g := globalLoad(ir.ReturnResult(r, len(r.Results)-1)); g != nil {
-					okClosed = true
+		c.Check(okRet, "WHO.push", f, "ErrPushUnsupported on the other edge", f.Pos(), "the not-enabled edge returns a package-level error", "the not-enabled edge does not return a package-level error")
+		// D2: the not-running edge returns a package-level error before anything is sent
+		okClosed := false
+		for _, b := range e.builds {
+			roots := []*ssa.Function{f, b.Parent()}
+			for _, root := range roots {
+				for _, g := range c.P.Ext(root) {
+					for _, r := range ir.Returns(g) {
+						if len(r.Results) == 0 {
+							continue
+						}
+						for _, cd := range ir.CondsAt(r.Block()) {
+							if x, eq, ok := ir.NilCompare(cd.V); ok && chk.LoadsField(x, c.M.SCh) && eq == cd.Truth {
+								if gl := globalLoad(ir.ReturnResult(r, len(r.Results)-1)); gl != nil {
+									okClosed = true
+								}
+							}
+						}
+					}
+				}
+			}
+			// or in a caller chain between the entry point and the builder
+			for _, a := range anchorsIn(c, b, f) {
+				_ = a
+			}
+		}
+		if !okClosed {
+			// search every function on the way from the entry point to the builders
+			for _, g := range pkgFuncs(c, c.M.Pkg) {
+				if g.Parent() != nil || ir.RecvNamed(g) != c.M.Server || !reachesAny(c, f, g, 3) {
+					continue
+				}
+				for _, r := range ir.Returns(g) {
+					if len(r.Results) == 0 {
+						continue
+					}
+					for _, cd := range ir.CondsAt(r.Block()) {
+						if x, eq, ok := ir.NilCompare(cd.V); ok && chk.LoadsField(x, c.M.SCh) && eq == cd.Truth {
+							if gl := globalLoad(ir.ReturnResult(r, len(r.Results)-1)); gl != nil {
+								okClosed = true
+							}
+						}
+					}
 				}
 			}
 		}
+		c.Check(okClosed, "WHO.push", f, "ErrConnClosed when not running", f.Pos(), "on the channel == nil edge the push path returns a package-level error", "the push path has no not-running edge returning a package-level error")
 	}
-	c.Check(okClosed, "WHO.push", pf, "ErrConnClosed when not running", pf.Pos(), "on the channel == nil edge the push function returns a package-level error", "the push function has no not-running edge returning a package-level error")
+}
+
+// reachesAny: f calls g directly or through at most depth repository functions.
+func reachesAny(c *chk.Ctx, f, g *ssa.Function, depth int) bool {
+	if f == g {
+		return true
+	}
+	return reachesCallee(c, f, g, depth)
 }
 
 // filterFunc: the function that intercepts replies (looks up the callback table and appends messages).
